@@ -149,3 +149,102 @@ Theorem C01_file_roundtrip_floats : forall (F : Type) (show_f : btype -> F -> by
               omap (val_table F parse_f) (pd_tables p) = Some (map (vt_rows F) (vd_tables F d)).
 Proof. exact file_roundtrip_floats. Qed.
 Print Assumptions C01_file_roundtrip_floats.
+
+(* ================================================================== round 5: the writer's decision logic regenerated from
+   the source.  Generated/YannyWriter.v is produced on every run by translate/c01.py (generate_writer): protect(),
+   dtype_to_struct() (enum block, declaration line of a column: type word by dtmap / char / enum type, the [n] suffix rule
+   for arrays, the [w] suffix rule for character columns, the struct block), write() (header comments, pair lines, enum and
+   struct blocks and when they are emitted, the datum of a scalar / array cell, the row line, the order of the parts),
+   convert() (which conversion for which class of type names) and the default structure names of write_ndarray_to_yanny,
+   each translated statement by statement into Gallina over byte strings (runtime C01/PyRt.v).  The theorems below oblige
+   every generated piece to BE the corresponding piece of the hand-written writer model Yanny/Render.v (C01/Bridge.v). *)
+From PV Require Import C01.PyRt Generated.YannyWriter C01.GenWriter C01.Bridge.
+
+Theorem C01_generated_protect : forall s, gen_protect s = protect s.
+Proof. exact gen_protect_is_protect. Qed.
+Print Assumptions C01_generated_protect.
+
+Theorem C01_generated_enum_block : forall e, gen_enum_text (e_tname e) (e_labels e) = render_enum e.
+Proof. exact gen_enum_text_is_render_enum. Qed.
+Print Assumptions C01_generated_enum_block.
+
+(* one declaration line, for the numpy type code of the column (S<w> or U<w> for character columns), its array length
+   (0 = scalar) and the enums= dictionary; None = KeyError in dtmap on both sides *)
+Theorem C01_generated_declaration_line : forall es c u, wtype_ok (c_type c) = true ->
+  gen_decl_line (enums_dict es) (c_name c) (code_of u (c_type c)) (arr_len c) = decl_line es c.
+Proof. exact gen_decl_line_is_decl_line. Qed.
+Print Assumptions C01_generated_declaration_line.
+
+Theorem C01_generated_struct_block : forall es t, forallb (fun c => wtype_ok (c_type c)) (t_cols t) = true ->
+  gen_struct_of es t = render_struct es t.
+Proof. exact gen_struct_is_render_struct. Qed.
+Print Assumptions C01_generated_struct_block.
+
+Theorem C01_generated_cell_and_row : forall name r,
+  gen_row name (map (fun c => gen_datum (fst (fst c)) (snd (fst c)) (snd c)) (map gcell r)) = render_row name r.
+Proof. exact gen_row_is_render_row. Qed.
+Print Assumptions C01_generated_cell_and_row.
+
+(* THE WRITER: write_ndarray_to_yanny's glue over the generated pieces (gen_render) is the writer model render_checked --
+   for every document whose column types a caller can hand over (no reader-only char[], unsupported codes included) *)
+Theorem C01_generated_writer_is_render : forall d, writer_types_ok d = true -> gen_render d = render_checked d.
+Proof. exact generated_writer_is_render. Qed.
+Print Assumptions C01_generated_writer_is_render.
+
+(* unsupported scalar types: the generated dtype_to_struct raises KeyError in dtmap -- nothing is written *)
+Theorem C01_generated_writer_refuses : forall d t c code, In t (d_tables d) -> In c (t_cols t) -> c_type c = TUnsup code ->
+  py_head_in code (bs "SU"%string) = false -> lookup code dtmap = None -> gen_render d = None.
+Proof. exact generated_writer_refuses. Qed.
+Print Assumptions C01_generated_writer_refuses.
+
+(* convert(): int() for short / int / long, float() for float / double, the text otherwise = Parse.classify *)
+Theorem C01_generated_convert : forall typ,
+  gen_convert_class (basetype typ) = match classify typ with KInt => 1 | KFloat => 2 | KOther => 0 end.
+Proof. exact gen_convert_is_classify. Qed.
+Print Assumptions C01_generated_convert.
+
+(* write_table_yanny hands the string 'Table' to write(): the string branch of the comment handling gives the same text as
+   the one-element list the model carries *)
+Theorem C01_generated_table_comment : gen_comments_str (bs "Table"%string) = gen_comments_list [bs "Table"%string].
+Proof. exact gen_comments_str_table. Qed.
+Print Assumptions C01_generated_table_comment.
+
+(* THE PROPERTY through the generated writer: what the statements of the CURRENT source assemble for a document of the
+   domain, read back by the reader model (text or binary), is the document's meaning *)
+Theorem C01_generated_file_roundtrip : forall d, doc_ok d = true ->
+  exists b p, gen_render d = Some b /\ sem d = Some p /\ parse b = Some p /\ parse_binary b = Some p.
+Proof. exact generated_file_roundtrip. Qed.
+Print Assumptions C01_generated_file_roundtrip.
+
+Example C01_generated_example :
+  match gen_render example_doc, render_checked example_doc with Some a, Some b => a = b | _, _ => False end.
+Proof. vm_compute. reflexivity. Qed.
+Example C01_generated_default_names : default_names 2 = [bs "MYSTRUCT0"%string; bs "MYSTRUCT1"%string].
+Proof. exact default_names_example. Qed.
+
+(* ================================================================== round 5: the float oracle discharged on a fragment.
+   C01/FloatFrag.v models numpy's text and Python's float() for NaN, the infinities and every signed integer-valued number
+   (nan, inf, -inf, <digits>.0, -0.0): on this fragment both oracle hypotheses are THEOREMS, so the file-level round trip of
+   float VALUES holds there without any assumption; show_frag / parse_frag are tied to numpy / CPython by correspondence
+   (case CFloatText) on every run. *)
+From PV Require Import C01.FloatFrag.
+
+Theorem C01_float_fragment_text_is_bare : forall t x, bare_ok (show_frag t x) = true.
+Proof. exact frag_show_bare. Qed.
+Print Assumptions C01_float_fragment_text_is_bare.
+
+Theorem C01_float_fragment_reads_back : forall t x, parse_frag t (show_frag t x) = Some x.
+Proof. exact frag_parse_show. Qed.
+Print Assumptions C01_float_fragment_reads_back.
+
+Theorem C01_file_roundtrip_float_fragment : forall d : vdoc ffrag,
+  doc_ok (txt_doc ffrag show_frag d) = true -> forallb (vtable_typed ffrag) (vd_tables ffrag d) = true ->
+  exists b p, render_checked (txt_doc ffrag show_frag d) = Some b /\ parse b = Some p /\ parse_binary b = Some p /\
+              pd_pairs p = vd_pairs ffrag d /\
+              omap (val_table ffrag parse_frag) (pd_tables p) = Some (map (vt_rows ffrag) (vd_tables ffrag d)).
+Proof. exact file_roundtrip_frag. Qed.
+Print Assumptions C01_file_roundtrip_float_fragment.
+
+Example C01_float_fragment_example : doc_ok (txt_doc ffrag show_frag frag_example_doc) = true /\
+  forallb (vtable_typed ffrag) (vd_tables ffrag frag_example_doc) = true.
+Proof. exact frag_example_ok. Qed.
